@@ -212,6 +212,36 @@ def load_known(pid):
     return [e for e in data.get('entries', []) if e.get('property') == pid]
 
 
+def supp_crash(e):
+    """(signature, detail) when exception e was raised inside the code under test (a frame of <REPO>/supp), else None.
+    A semantic check that gets no answer at all for an in-domain input reports that as a violation of its property
+    (the analysis raised) instead of dying with a harness error."""
+    tb = traceback.extract_tb(e.__traceback__)
+    own = [f for f in tb if f.filename.startswith(os.path.join(REPO, 'supp') + os.sep)]
+    if not own:
+        return None
+    last = own[-1]
+    return ('analysis-raises:%s:%s.%s' % (type(e).__name__, os.path.basename(last.filename)[:-3], last.name),
+            'supp raised %r at %s:%d (%s)' % (e, os.path.basename(last.filename), last.lineno, last.line))
+
+
+def crash_guard(info0):
+    """decorator for oracle functions returning (problems, info)"""
+    def deco(fn):
+        def wrapper(*a, **k):
+            try:
+                return fn(*a, **k)
+            except Exception as e:
+                hit = supp_crash(e)
+                if hit is None:
+                    raise
+                return [hit], dict(info0)
+        wrapper.__name__ = fn.__name__
+        wrapper.__doc__ = fn.__doc__
+        return wrapper
+    return deco
+
+
 def write_replay(pid, v):
     d = os.path.join(VERIF, 'replays', pid)
     os.makedirs(d, exist_ok=True)
